@@ -38,7 +38,7 @@ fn main() {
             }
         }
         let h = History::parse(&text).expect("cannot parse replay file");
-        let opts = RunOpts { known: known.clone(), stop_at_first: false, drop_at: args.get("drop-at").and_then(|s| s.parse().ok()) };
+        let opts = RunOpts { known: known.clone(), stop_at_first: false, drop_at: args.get("drop-at").and_then(|s| s.parse().ok()), light: false };
         let (res, known_hits) = run_history(&h, opts);
         let mut bad = 0;
         for v in &res.violations {
@@ -65,6 +65,7 @@ fn main() {
     let max_ops = args.u64("ops", 40);
     let drop_prob = args.u64("drop-percent", 0);
     let max_violations = args.u64("max-violations", 5) as usize;
+    let light = args.u64("light", 0) == 1;
 
     let mut report = Report { engine: "seqmon".into(), ..Default::default() };
     let mut master = Rng::new(seed);
@@ -75,7 +76,7 @@ fn main() {
         let cfg = gen_config(&mut rng, profile);
         let nops = rng.range(max_ops / 2, max_ops) as usize;
         let drop_at = if drop_prob > 0 && rng.below(100) < drop_prob { Some(rng.below(nops as u64) as usize) } else { None };
-        let opts = RunOpts { known: known.clone(), stop_at_first: true, drop_at };
+        let opts = RunOpts { known: known.clone(), stop_at_first: true, drop_at, light };
         let mut d = Driver::new(&cfg, opts);
         let mut gen = Gen::new(rng.fork(), profile);
         let mut ops: Vec<Op> = Vec::with_capacity(nops);
@@ -115,7 +116,7 @@ fn main() {
                     let target = if prop == "all" { v.props[0].to_string() } else { prop.clone() };
                     let small = if drop_at.is_some() { h.clone() } else { shrink(&h, &target, &v.sig, &known, 400) };
                     // re-run the shrunk history to report its own detail
-                    let (r2, _) = run_history(&small, RunOpts { known: known.clone(), stop_at_first: true, drop_at: None });
+                    let (r2, _) = run_history(&small, RunOpts { known: known.clone(), stop_at_first: true, drop_at: None, light: false });
                     let v2 = r2.violations.iter().find(|x| x.sig == v.sig).cloned().unwrap_or_else(|| v.clone());
                     let mut j = Report::violation_json(&v2, &small.to_text(), h.ops.len());
                     if let Some(da) = drop_at {
